@@ -620,3 +620,57 @@ func (c *Ctx) Concurrent(name string, g, n int, r *gen.Rand, f func(q *gen.Rand)
 			map[string]interface{}{"mismatches": bad, "note": "the inputs are a fixed list, the interleaving is not reproducible; the sequential streams hold for inputs of the same kind"})
 	}
 }
+
+// ConcurrentReaders builds one object per round (build returns a closure that reads it through read-only
+// operations and returns "" when everything read is what was encoded, or a description of the mismatch) and lets
+// eight goroutines, released together, run that closure twice each. Operations that only read their receiver may
+// be called on one object from several goroutines at once; an implementation that fills something in lazily on
+// first use has to do so without being seen half-way. A mismatch is reported under "concurrent-readers:<name>".
+func (c *Ctx) ConcurrentReaders(name string, rounds int, r *gen.Rand, build func(q *gen.Rand) func() string) {
+	prev := runtime.GOMAXPROCS(4)
+	defer runtime.GOMAXPROCS(prev)
+	const g = 8
+	for round := 0; round < rounds; round++ {
+		check := build(r)
+		if check == nil {
+			continue
+		}
+		var arrived int32
+		var mu sync.Mutex
+		var bad []string
+		var wg sync.WaitGroup
+		for i := 0; i < g; i++ {
+			wg.Add(1)
+			go func() {
+				defer wg.Done()
+				defer func() {
+					if p := recover(); p != nil {
+						mu.Lock()
+						bad = append(bad, fmt.Sprintf("panic: %v", p))
+						mu.Unlock()
+					}
+				}()
+				for atomic.AddInt32(&arrived, 1); atomic.LoadInt32(&arrived) < g; {
+					runtime.Gosched()
+				}
+				for k := 0; k < 2; k++ {
+					if s := check(); s != "" {
+						mu.Lock()
+						if len(bad) < 3 {
+							bad = append(bad, s)
+						}
+						mu.Unlock()
+					}
+				}
+			}()
+		}
+		wg.Wait()
+		c.Eval(2 * g)
+		c.CountN("concurrent.reads_of_a_shared_object", 2*g)
+		if len(bad) > 0 {
+			c.Fail("concurrent-readers:"+name, fmt.Sprintf("with %d goroutines reading one %s at the same time (nobody writes to it): %s", g, name, bad[0]),
+				map[string]interface{}{"mismatches": bad, "note": "the objects are a fixed list, the interleaving is not reproducible; a single goroutine reads the same values correctly"})
+			return
+		}
+	}
+}
